@@ -237,6 +237,24 @@ class VFmt:
         self.template, self.args, self.joined, self.split = template, list(args), joined, split
 
 
+class VTextTable:
+    """a dictionary from literals to pieces of text whose content the contract does not look into (LaTeX literal names)"""
+
+
+class VLitTexts:
+    """(table[l] for l in clause): the texts of the literals of a clause, in order"""
+
+    def __init__(self, clause):
+        self.clause = clause
+
+
+class VRowText:
+    """prefix + sep.join(texts of the literals of `clause`) + suffix"""
+
+    def __init__(self, sep, clause, prefix='', suffix=''):
+        self.sep, self.clause, self.prefix, self.suffix = sep, clause, prefix, suffix
+
+
 class VEnum:
     """enumerate(inner, start)"""
 
@@ -909,6 +927,8 @@ class Engine:
         if isinstance(s, ast.Assign):
             v = self.eval(s.value, env)
             for t in s.targets:
+                if isinstance(t, ast.Name) and self.frames[-1]['contract'].get('locals', {}).get(t.id) == 'texttable':
+                    v = VTextTable()                               # declared: a table of unmodelled texts
                 if isinstance(t, ast.Name) and isinstance(v, VArr) and getattr(v, 'blank', False) \
                         and self.frames[-1]['contract'].get('locals', {}).get(t.id) == 'ctab':
                     v.arr = self.fresh('ctable', specs.CTab)       # declared: a table of clause lists
@@ -1038,7 +1058,7 @@ class Engine:
                     raise Unsupported('store into an abstract literal list other than an in-place negation')
                 env[t.value.id] = VSeq(specs.iflip1(base.term, i))     # the name now denotes the list with position i negated
                 return
-            if isinstance(base, VOpaque):
+            if isinstance(base, (VOpaque, VTextTable)):
                 return                       # store into an unmodelled container (e.g. the header dict)
             if isinstance(base, VArr):
                 i = self.norm_index(idx, base.length, t)
@@ -1153,6 +1173,8 @@ class Engine:
             return VOpaque(v.what)
         if isinstance(v, VSink):
             v.trace = self.fresh(name + '_trace', specs.CSeq)
+            return v
+        if isinstance(v, VTextTable):
             return v
         if isinstance(v, VCounted):
             n = self.fresh(name + '_count')
@@ -1318,6 +1340,18 @@ class Engine:
         k, spec = self.loop_spec(s)
         if spec is None:
             raise Unsupported('for loop #{} over a symbolic iterable without invariant (line {})'.format(k, s.lineno))
+        if spec.get('uninterpreted'):
+            # a loop the contract declares out of scope (pure text processing): its body is NOT interpreted; every name it
+            # assigns is havoced.  This is an explicit, reported assumption: the loop ends normally and touches only those names.
+            self.uninterpreted_loops = getattr(self, 'uninterpreted_loops', set())
+            self.uninterpreted_loops.add('{} loop #{} (line {}): {}'.format(self.cur_func, k, s.lineno, spec['uninterpreted']))
+            allowed = set(spec.get('assigns', []))
+            names, attrs = self.assigned_names(s.body)
+            tn = {x.id for x in ast.walk(s.target) if isinstance(x, ast.Name)}
+            if attrs or not (names - tn) <= allowed:
+                raise Unsupported('uninterpreted loop assigns {} beyond the declared {}'.format(sorted((names - tn) | attrs), sorted(allowed)))
+            self.havoc_loop(s.body, env, spec, extra_names=list(tn))
+            return
         if isinstance(it, VRange) and not isinstance(it.step, int) and 'niter' in spec:
             # range(lo, hi, step) with a symbolic step: the contract names the number of iterations; that it is the right
             # one (ceil((hi-lo)/step) for a positive step) is an obligation, stated without division
@@ -1365,6 +1399,10 @@ class Engine:
             niter = specs.tlen(it.term)
             t0 = it.term
             elem = lambda i: VTuple([specs.tcoef(t0, i), specs.tlit(t0, i)], 'tuple')
+        elif isinstance(it, VTextTable):
+            niter = self.fresh('table_len')
+            self.pc.append(niter >= 0)
+            elem = lambda i: VOpaque('key of the text table')
         elif isinstance(it, VOpaque):
             # a container the contract does not look into (e.g. the header dictionary): some number of unmodelled elements
             niter = self.fresh('opaque_len')
@@ -1595,6 +1633,10 @@ class Engine:
             return VSeq(specs.iapp(a.term, b.term))
         if isinstance(a, VTuple) and isinstance(op, ast.Mult) and isinstance(b, int):
             return VTuple(a.items * b, a.kind)
+        if isinstance(op, ast.Add) and isinstance(a, VRowText) and isinstance(b, str) and not b.startswith('<'):
+            return VRowText(a.sep, a.clause, a.prefix, a.suffix + b)
+        if isinstance(op, ast.Add) and isinstance(b, VRowText) and isinstance(a, str) and not a.startswith('<'):
+            return VRowText(b.sep, b.clause, a + b.prefix, b.suffix)
         if isinstance(op, ast.Add) and (isinstance(a, VFmt) or isinstance(b, VFmt)):
             def lift(x):
                 if isinstance(x, VFmt):
@@ -1829,6 +1871,8 @@ class Engine:
         if isinstance(e.slice, ast.Slice):
             return self.slice(base, e.slice, env, e)
         idx = self.eval(e.slice, env)
+        if isinstance(base, VTextTable):
+            return '<str>'
         if isinstance(base, VTuple):
             if isinstance(idx, int):
                 if not -len(base.items) <= idx < len(base.items):
@@ -2025,6 +2069,8 @@ class Engine:
         if isinstance(it, VSeq) and it.sortname == 'ISeq' and isinstance(g.target, ast.Name) and isinstance(e.elt, ast.Subscript) \
                 and isinstance(e.elt.slice, ast.Name) and e.elt.slice.id == g.target.id:
             table = self.eval(e.elt.value, env)
+            if isinstance(table, VTextTable):
+                return VLitTexts(it.term)
             if isinstance(table, VArr):
                 # [A[l] for l in seq]: every index must be a legal python index into the table
                 if not getattr(self, 'in_spec', False):
@@ -2476,6 +2522,8 @@ class Engine:
         or a formatted piece identified by its template and integer arguments"""
         import re
         prefix = self.frames[0]['contract'].get('trace', {}).get('comment')
+        if isinstance(x, VRowText):
+            return specs.evrow(z3.IntVal(template_id('row:{}[{}]{}'.format(x.prefix, x.sep, x.suffix))), x.clause)
         if isinstance(x, str) and not x.startswith('<'):
             x = VFmt(x.replace('{', '{{').replace('}', '}}'), [])
         if not isinstance(x, VFmt) or x.split:
@@ -2668,6 +2716,8 @@ class Engine:
             if meth == 'splitlines' and not args and o.joined is None:
                 return VFmt(o.template, o.args, split=True)
             raise Unsupported('method {} of a formatted text'.format(meth))
+        if isinstance(o, str) and meth == 'join' and len(args) == 1 and isinstance(args[0], VLitTexts) and not o.startswith('<'):
+            return VRowText(o, args[0].clause)
         if isinstance(o, str) and meth == 'join' and len(args) == 1 and isinstance(args[0], VFmt) and args[0].split and not o.startswith('<'):
             return VFmt(args[0].template, args[0].args, joined=(o, ''))
         if isinstance(o, VSink):
@@ -2830,17 +2880,18 @@ def sf_forall_int(eng, node, env):
     """forall(lambda i: body) over ints"""
     lam = node.args[0]
     eng.qcount = getattr(eng, 'qcount', 0) + 1
-    vs = [z3.Int('q!{}!{}'.format(a.arg, eng.qcount)) for a in lam.args.args]
+    vs = [z3.Const('q!{}!{}'.format(a.arg, eng.qcount), specs.CSeq) if a.arg.startswith('S_') else z3.Int('q!{}!{}'.format(a.arg, eng.qcount))
+          for a in lam.args.args]
     e2 = dict(env)
     for a, v in zip(lam.args.args, vs):
-        e2[a.arg] = v
+        e2[a.arg] = VSeq(v) if a.arg.startswith('S_') else v            # binders named S_... range over clause sequences (traces)
     body = eng.eval(lam.body, e2)
     if len(node.args) > 1:
         # explicit trigger(s): forall(lambda u: body, lambda u: term)  - the quantifier is instantiated where `term` occurs
         pl = node.args[1]
         e3 = dict(env)
         for a, v in zip(pl.args.args, vs):
-            e3[a.arg] = v
+            e3[a.arg] = VSeq(v) if a.arg.startswith('S_') else v
         pats = pl.body.elts if isinstance(pl.body, ast.Tuple) else [pl.body]
         terms = [toz(_term(eng.eval(pt, e3))) for pt in pats]
         if not all(any(_mentions(t, v) for t in terms) for v in vs) or any(specs._has_ite(t) for t in terms):
@@ -2887,7 +2938,10 @@ def sf_olast(eng, node, v):
 
 
 def sf_ev(eng, node, template, *args):
-    t, _sel = normalize_template(template, len(args), [])
+    if args:
+        t, _sel = normalize_template(template, len(args), [])
+    else:
+        t = template.replace('{', '{{').replace('}', '}}')       # a constant piece of text: braces are literal
     ints = [z3.IntVal(template_id('str:' + a)) if isinstance(a, str) else toz(a) for a in args]
     ints += [z3.IntVal(0)] * (2 - len(ints))
     return VSeq(specs.ev3(z3.IntVal(template_id(t)), ints[0], ints[1]))
@@ -2907,7 +2961,12 @@ def sf_nonnone(eng, node, t):
     return xs[0]
 
 
+def sf_evrowt(eng, node, prefix, sep, suffix, clause):
+    return VSeq(specs.evrow(z3.IntVal(template_id('row:{}[{}]{}'.format(prefix, sep, suffix))), _term(clause)))
+
+
 SPEC_FUNCS = {
+    'evrow': sf_evrowt, 'rowapp': _wrap(specs.rowapp), 'rowsfrom': _wrap(specs.rowsfrom),
     'nonnone': sf_nonnone,
     'pairsof': lambda eng, node, A, B, n: VPairs(toz(n), as_arr(A).arr, as_arr(B).arr),
     'lam1': sf_lam1,
